@@ -235,3 +235,40 @@ func TestVerifFinding_C20_EnterMaintenanceRecordedMasterNotRegistered(t *testing
 			"m0", app.cluster.AllNodeHosts(), p, where)
 	}
 }
+
+// (r) planned switchover in a semi-sync cluster while the published active list names a host that is not registered
+// any more (same data as (o)). The pre-switchover speed-up phase collects the positions of all active replicas in
+// goroutines (util.RunParallel): cluster.Get("r2") == nil is dereferenced there, which cannot be recovered by the
+// caller - on the defective tree this test kills the test binary exactly as it kills the daemon (go test reports
+// "panic: runtime error: invalid memory address" and FAIL).
+func TestVerifFinding_C20_TurboPhaseActiveNodeNotRegistered(t *testing.T) {
+	app, d := vfC20App(t)
+	app.config.SemiSync = true
+	app.config.RplSemiSyncMasterWaitForSlaveCount = 2
+	app.switchHelper = mysql.NewSwitchHelper(app.config)
+	m1 := vfMaster("m1", vfC20Gtid)
+	r1 := vfReplica("r1", "m1", vfC20Gtid)
+	r2 := vfReplica("r2", "m1", vfC20Gtid)
+	r3 := vfReplica("r3", "m1", vfC20Gtid)
+	m1.SemiSyncMaster, m1.WaitSlaveCount = true, 2
+	r1.SemiSyncSlave, r2.SemiSyncSlave, r3.SemiSyncSlave = true, true, true
+	vfAddNode(t, app, d, m1, false)
+	vfAddNode(t, app, d, r1, false)
+	vfAddNode(t, app, d, r2, false)
+	vfAddNode(t, app, d, r3, false)
+	vfSetLocal(app, m1)
+	vfCompleteApp(t, app)
+	vfHealthFromDB(app, d)
+	d.put(pathMasterNode, "m1")
+	d.put(pathActiveNodes, []string{"m1", "r1", "r2", "r3", "r4"})
+	d.put(pathCurrentSwitch, Switchover{From: "m1", Cause: CauseManual, MasterTransition: SwitchoverTransition, InitiatedBy: "op", InitiatedAt: time.Now()})
+	p, where := vfC20Catch(func() { app.stateManager() })
+	if p != nil {
+		t.Fatalf("VIOLATION C20: manager iteration panicked in the pre-switchover phase while active_nodes names the unregistered host r4: panic: %v [%s]", p, where)
+	}
+	var sw, rej, last Switchover
+	_ = d.Get(pathCurrentSwitch, &sw)
+	_ = d.Get(pathLastRejectedSwitch, &rej)
+	_ = d.Get(pathLastSwitch, &last)
+	t.Logf("no panic; pending: %+v %+v; rejected: %+v; last: %+v %+v", sw, sw.Result, rej.Result, last, last.Result)
+}
